@@ -1,5 +1,14 @@
-From DustDDS Require Import Base.Machine Base.Bytes Wire.WireModel Wire.WireProofs.
+(* C07 (RTPS message part) — the decoder is total.
+   Statements over Wire/WireModel.v:
+     parse_message bytes   RtpsMessageRead::try_from (header, submessage loop, the 12 parsers)
+     C07_known_fnset bytes a NACK_FRAG reached by the loop whose FragmentNumberSet is complete on
+                           the wire and has numBits > 256 or a set bit with base + bit > u32::MAX *)
+From DustDDS Require Import Base.Machine Base.Bytes Wire.WireModel Wire.WireProofs Wire.WireTotalProofs.
 Open Scope Z_scope.
-Theorem C07_u32_codec : forall x, in_u32 x -> dec_le (enc_le 4 x) = x.
-Proof. exact placeholder_u32. Qed.
-Print Assumptions C07_u32_codec.
+
+(* for EVERY list of integers (bytes or not) outside the recorded class: a value or an error *)
+Theorem C07_parse_message_total : forall bytes,
+  C07_known_fnset bytes = false -> is_panic (parse_message bytes) = false.
+Proof. exact parse_message_total. Qed.
+
+Print Assumptions C07_parse_message_total.
